@@ -109,6 +109,23 @@ PROPS = {
 NOT_APPLICABLE = {}
 
 
+def _load_snippets():
+    """Merge per-driver property entries from lib/props_d/*.py (one file per builder)."""
+    import glob
+    import re
+    d = os.path.join(os.path.dirname(os.path.abspath(__file__)), "props_d")
+    for f in sorted(glob.glob(os.path.join(d, "*.py"))):
+        ns = {"COMMON_ASSUMPTIONS": COMMON_ASSUMPTIONS}
+        with open(f) as fh:
+            exec(compile(fh.read(), f, "exec"), ns)
+        for v in list(ns.values()):
+            if isinstance(v, dict) and v and all(isinstance(k, str) and re.fullmatch(r"C\d\d", k) for k in v):
+                PROPS.update(v)
+
+
+_load_snippets()
+
+
 def watchdog(pid, tier):
     """Generous wall-clock watchdog per shard (seconds); firing is inconclusive, not a verdict."""
     w = PROPS[pid].get("watchdog", {"quick": 900, "thorough": 7200})
